@@ -83,7 +83,11 @@ struct Rng {
   }
 };
 
-// style: 0 random, 1 gradients, 2 all zero, 3 all max, 4 random with many 0 / max samples
+// style: 0 random, 1 gradients, 2 all zero, 3 all max, 4 random with many 0 / max samples,
+//   5 repeated / nearly repeated rows (a row is a copy of the row above with 0..2 samples changed anywhere, or new),
+//   6 flat background with sparse marks (adjacent rows equal or differing in a few pixels),
+//   7 every row equals the first one except for marks at the right / left edge
+// (5..7: content with vertical redundancy - what row filters and compressors key on; uniformly random pixels never have it)
 inline Pix make_pix(size_t w, size_t h, bool alpha, unsigned cw, unsigned style, uint64_t seed, uint64_t limit = 0) {
   Pix p;
   p.w = w;
@@ -94,11 +98,57 @@ inline Pix make_pix(size_t w, size_t h, bool alpha, unsigned cw, unsigned style,
   uint64_t m = mask_of(cw);
   if (limit && limit < m) m = limit;
   Rng r(seed);
+  style %= 8;
+  auto clampv = [&](uint64_t val) -> uint64_t {
+    if (m == UINT64_MAX) return val;
+    if ((m & (m + 1)) == 0) return val & m;
+    return (style == 3) ? m : val % (m + 1);
+  };
+  if (style >= 5) {
+    uint64_t bg[4];
+    for (int c = 0; c < 4; c++) bg[c] = clampv(r.next());
+    for (size_t y = 0; y < h; y++) {
+      uint64_t* row = &p.v[y * w * 4];
+      const uint64_t* up = y ? row - w * 4 : nullptr;
+      uint64_t k = r.next() >> 16;
+      if (style == 5) {
+        if (up && (k & 1)) {
+          memcpy(row, up, w * 4 * sizeof(uint64_t));
+          unsigned changes = (k >> 1) % 3;
+          for (unsigned j = 0; j < changes; j++) {
+            uint64_t q = r.next() >> 16;
+            size_t x = (q & 3) == 0 ? w - 1 : (q >> 2) % w; // the last pixel a little more often
+            int c = static_cast<int>((q >> 40) % (alpha ? 4 : 3));
+            row[x * 4 + c] = clampv(row[x * 4 + c] + 1 + ((q >> 44) % 3 == 0 ? 0 : r.next()));
+          }
+        } else {
+          for (size_t i = 0; i < w * 4; i++) row[i] = clampv(r.next());
+        }
+      } else if (style == 6) {
+        for (size_t x = 0; x < w; x++) {
+          bool mark = ((r.next() >> 20) & 15) == 0;
+          for (int c = 0; c < 4; c++) row[x * 4 + c] = mark ? clampv(r.next()) : bg[c];
+        }
+      } else {
+        if (!up) {
+          for (size_t i = 0; i < w * 4; i++) row[i] = clampv(r.next());
+        } else {
+          memcpy(row, p.v.data(), w * 4 * sizeof(uint64_t));
+          size_t x = (k % 3) == 0 ? w - 1 : (k % 6) == 1 ? 0 : w; // w = no mark
+          if (x < w) {
+            int c = static_cast<int>((k >> 8) % (alpha ? 4 : 3));
+            row[x * 4 + c] = clampv(row[x * 4 + c] ^ (1ULL << ((k >> 12) % cw)));
+          }
+        }
+      }
+    }
+    return p;
+  }
   for (size_t y = 0; y < h; y++) {
     for (size_t x = 0; x < w; x++) {
       for (int c = 0; c < 4; c++) {
         uint64_t val;
-        switch (style % 5) {
+        switch (style) {
           case 0: val = r.next(); break;
           case 1: {
             uint64_t base = c == 0 ? x : c == 1 ? y : c == 2 ? (x + y) : (x * y + 1);
@@ -112,9 +162,7 @@ inline Pix make_pix(size_t w, size_t h, bool alpha, unsigned cw, unsigned style,
             val = (k & 3) == 0 ? 0 : (k & 3) == 1 ? UINT64_MAX : (k >> 8);
           }
         }
-        if (m == UINT64_MAX) p.v[(y * w + x) * 4 + c] = val;
-        else if ((m & (m + 1)) == 0) p.v[(y * w + x) * 4 + c] = val & m;
-        else p.v[(y * w + x) * 4 + c] = (style % 5 == 3) ? m : val % (m + 1);
+        p.v[(y * w + x) * 4 + c] = clampv(val);
       }
     }
   }
